@@ -1,6 +1,544 @@
-"""hashmap.c -> Gen/HashMapGen.lean : constants and fnv_hash."""
-import re
+"""hashmap.c -> Gen/HashMapGen.lean : constants and fnv_hash.
+   all nine sources -> Gen/HashSitesGen.lean : every hashmap_* call site with the convention its key follows,
+   the C typing of the probe index and of the fnv step (clang-14 typed AST), pins of match/wrappers/get_ident,
+   the places that release or rewrite memory a stored key may point into."""
+import re, subprocess, os
 from common import *
+
+SOURCES = ['main.c', 'tokenize.c', 'preprocess.c', 'parse.c', 'type.c', 'codegen.c', 'hashmap.c', 'strings.c', 'unicode.c']
+APIS = ['get2', 'get', 'put2', 'put', 'delete2', 'delete']
+CALL_RE = re.compile(r'(?<![\w.>])hashmap_(get2|get|put2|put|delete2|delete)\s*\(')
+
+
+# ------------------------------------------------------------------------------------------ small C text helpers
+
+def skip_literal(src, i):
+    q = src[i]
+    i += 1
+    while src[i] != q:
+        if src[i] == '\\':
+            i += 1
+        i += 1
+    return i
+
+
+def match_paren(src, i):
+    """src[i] == '(' -> index of the matching ')'"""
+    depth = 0
+    n = len(src)
+    while i < n:
+        c = src[i]
+        if c in '"\'':
+            i = skip_literal(src, i)
+        elif c in '([{':
+            depth += 1
+        elif c in ')]}':
+            depth -= 1
+            if depth == 0:
+                return i
+        i += 1
+    raise ExtractError('unbalanced parenthesis')
+
+
+def split_args(text):
+    args, depth, cur, i = [], 0, [], 0
+    while i < len(text):
+        c = text[i]
+        if c in '"\'':
+            j = skip_literal(text, i)
+            cur.append(text[i:j + 1]); i = j + 1
+            continue
+        if c in '([{':
+            depth += 1
+        elif c in ')]}':
+            depth -= 1
+        if c == ',' and depth == 0:
+            args.append(''.join(cur).strip()); cur = []
+        else:
+            cur.append(c)
+        i += 1
+    last = ''.join(cur).strip()
+    if last or args:
+        args.append(last)
+    return [re.sub(r'\s+', ' ', a) for a in args]
+
+
+def functions(src):
+    """[(name, [param names], body_start, body_end)] for definitions at file scope"""
+    out = []
+    i, n = 0, len(src)
+    while i < n:
+        c = src[i]
+        if c in '"\'':
+            i = skip_literal(src, i)
+        elif c == '{':
+            j = i - 1
+            while j >= 0 and src[j].isspace():
+                j -= 1
+            name, params = None, []
+            if j >= 0 and src[j] == ')':
+                d, k = 0, j
+                while k >= 0:
+                    if src[k] == ')':
+                        d += 1
+                    elif src[k] == '(':
+                        d -= 1
+                        if d == 0:
+                            break
+                    k -= 1
+                m = re.search(r'([A-Za-z_]\w*)\s*$', src[:k])
+                if m:
+                    name = m.group(1)
+                    for p in split_args(src[k + 1:j]):
+                        pm = re.search(r'([A-Za-z_]\w*)\s*(?:\[[^\]]*\])?$', p)
+                        params.append(pm.group(1) if pm and p != 'void' else None)
+            end = match_paren(src, i)
+            if name:
+                out.append((name, params, i, end))
+            i = end
+        i += 1
+    return out
+
+
+def c_string(lit):
+    """bytes of a simple C string literal (one token)"""
+    assert lit[0] == '"' and lit[-1] == '"'
+    out, i, s = [], 0, lit[1:-1]
+    simple = {'n': 10, 't': 9, 'r': 13, '0': 0, '\\': 92, '"': 34, "'": 39, 'a': 7, 'b': 8, 'f': 12, 'v': 11, 'e': 27}
+    while i < len(s):
+        if s[i] == '\\':
+            i += 1
+            if s[i] == 'x':
+                j = i + 1
+                while j < len(s) and s[j] in '0123456789abcdefABCDEF':
+                    j += 1
+                out.append(int(s[i + 1:j], 16) & 255); i = j
+                continue
+            if s[i] in '01234567':
+                j = i
+                while j < len(s) and j < i + 3 and s[j] in '01234567':
+                    j += 1
+                out.append(int(s[i:j], 8) & 255); i = j
+                continue
+            if s[i] not in simple:
+                raise ExtractError('escape sequence in a key literal the translator does not understand: ' + lit)
+            out.append(simple[s[i]]); i += 1
+        else:
+            out += list(s[i].encode('utf-8', 'surrogateescape')); i += 1
+    return out
+
+
+def lean_str(s):
+    out = []
+    for ch in s:
+        o = ord(ch)
+        if ch in '"\\':
+            out.append('\\' + ch)
+        elif 32 <= o < 127:
+            out.append(ch)
+        else:
+            out.append('\\x%02x' % o if o < 256 else '\\u{%x}' % o)
+    return '"' + ''.join(out) + '"'
+
+
+def lean_bytes_lit(bs):
+    """key literal as a Lean string when printable ASCII, the only case the audit accepts as is"""
+    return lean_str(''.join(chr(b) for b in bs))
+
+
+# ------------------------------------------------------------------------------------------ key provenance
+
+class Prog:
+    def __init__(self, repo):
+        self.src = {s: strip_comments(read(repo, s)) for s in SOURCES}
+        self.fns = {s: functions(self.src[s]) for s in SOURCES}
+        self.byname = {}
+        for s in SOURCES:
+            for f in self.fns[s]:
+                self.byname.setdefault(f[0], []).append((s, f))
+
+    def enclosing(self, s, pos):
+        for f in self.fns[s]:
+            if f[2] <= pos <= f[3]:
+                return f
+        return None
+
+    def body(self, s, f):
+        return self.src[s][f[2]:f[3] + 1]
+
+    def calls_of(self, name):
+        """[(file, enclosing fn, [args])] of every call `name(...)` inside a function body"""
+        out = []
+        for s in SOURCES:
+            for m in re.finditer(r'(?<![\w.>])' + re.escape(name) + r'\s*\(', self.src[s]):
+                f = self.enclosing(s, m.start())
+                if f is None:
+                    continue
+                close = match_paren(self.src[s], m.end() - 1)
+                out.append((s, f, split_args(self.src[s][m.end():close])))
+        return out
+
+
+def strip_parens(e):
+    e = e.strip()
+    while e.startswith('(') and match_paren(e, 0) == len(e) - 1:
+        e = e[1:-1].strip()
+    return e
+
+
+def top_level_ternary(e):
+    depth, q = 0, None
+    i = 0
+    while i < len(e):
+        c = e[i]
+        if c in '"\'':
+            i = skip_literal(e, i)
+        elif c in '([{':
+            depth += 1
+        elif c in ')]}':
+            depth -= 1
+        elif c == '?' and depth == 0 and q is None:
+            q = i
+        elif c == ':' and depth == 0 and q is not None:
+            return e[:q].strip(), e[q + 1:i].strip(), e[i + 1:].strip()
+        i += 1
+    return None
+
+
+def leaves(prog, s, f, expr, seen, depth=0):
+    """origins of the NUL-terminated string `expr` evaluates to, as Lean `Leaf` terms"""
+    e = strip_parens(expr)
+    if e == 'NULL':
+        return []
+    if depth > 24:
+        return [f'.other {lean_str("too deep: " + e)}']
+    t = top_level_ternary(e)
+    if t:
+        return leaves(prog, s, f, t[1], seen, depth + 1) + leaves(prog, s, f, t[2], seen, depth + 1)
+    if re.fullmatch(r'"(?:\\.|[^"\\])*"', e):
+        return [f'.lit {lean_bytes_lit(c_string(e))}']
+    m = re.fullmatch(r'strndup\((.+)\)', e)
+    if m and match_paren(e, e.index('(')) == len(e) - 1:
+        a = split_args(m.group(1))
+        if len(a) == 2:
+            m2 = re.fullmatch(r'(.+)->loc', a[0])
+            if m2 and a[1] == m2.group(1) + '->len':
+                return ['.dupTokSpan']
+            m2 = re.fullmatch(r'(.+)->loc \+ 1', a[0])
+            if m2 and a[1] == m2.group(1) + '->len - 2':
+                return ['.dupTokInner']
+            m2 = re.fullmatch(r'(\w+) - (\w+)', a[1])
+            if m2 and m2.group(2) == a[0]:
+                return ['.dupPrefix']
+        return [f'.other {lean_str(e)}']
+    m = re.fullmatch(r'format\((.+)\)', e)
+    if m and match_paren(e, e.index('(')) == len(e) - 1:
+        a = split_args(m.group(1))
+        if a and re.fullmatch(r'"(?:\\.|[^"\\])*"', a[0]):
+            return [f'.fmt {lean_bytes_lit(c_string(a[0]))}']
+        return [f'.other {lean_str(e)}']
+    m = re.fullmatch(r'([A-Za-z_]\w*)\((.*)\)', e)
+    if m and match_paren(e, e.index('(')) == len(e) - 1:
+        callee = m.group(1)
+        if callee == 'get_ident':
+            return ['.dupTokSpan']          # body pinned below
+        defs = prog.byname.get(callee, [])
+        if len(defs) == 1 and not callee.startswith('hashmap_') and ('ret', callee) not in seen:
+            # what a function of the compiler returns: the union of its `return e;` operands
+            ds, df = defs[0]
+            rets = [r.group(1).strip() for r in re.finditer(r'(?<![\w.>])return\s+([^;]+);', prog.body(ds, df))]
+            rets = [r for r in rets if strip_parens(r) != 'NULL']
+            if rets:
+                out = []
+                for r in rets:
+                    out += leaves(prog, ds, df, r, seen | {('ret', callee)}, depth + 1)
+                return out
+        if ('ret', callee) in seen:
+            return []
+        return [f'.call {lean_str(callee)}']
+    m = re.fullmatch(r'([A-Za-z_]\w*)\[(\w+)\]', e)
+    if m and f is not None:
+        body = prog.body(s, f)
+        am = re.search(r'static\s+char\s*\*\s*' + re.escape(m.group(1)) + r'\s*\[\s*\]\s*=\s*\{([^}]*)\}\s*;', body)
+        if am:
+            items = [x for x in split_args(am.group(1)) if x]
+            if all(re.fullmatch(r'"(?:\\.|[^"\\])*"', x) for x in items):
+                return [f'.lit {lean_bytes_lit(c_string(x))}' for x in items]
+        if m.group(1) == 'argv':
+            return [f'.argv {lean_str(e)}']
+        return [f'.other {lean_str(e)}']
+    if re.fullmatch(r'argv\[[^\]]*\](?: \+ \d+)?', e):
+        return [f'.argv {lean_str(e)}']
+    if re.fullmatch(r'[A-Za-z_]\w*', e) and f is not None:
+        name, params = f[0], f[1]
+        body = prog.body(s, f)
+        assigns = [a.group(1).strip() for a in re.finditer(r'(?<![\w.>])' + re.escape(e) + r'\s*=(?!=)\s*([^;]*);', body)]
+        if re.search(r'(?<![\w.>])' + re.escape(e) + r'\s*(?:\+\+|--|[-+*/|&^]=)|(?:\+\+|--)\s*' + re.escape(e) + r'\b', body):
+            return [f'.other {lean_str("modified in place: " + name + "." + e)}']
+        if e in params:
+            if assigns:
+                return [f'.other {lean_str("parameter assigned: " + name + "." + e)}']
+            key = (name, params.index(e))
+            if key in seen:
+                return []
+            seen = seen | {key}
+            callers = prog.calls_of(name)
+            if not callers:
+                return [f'.other {lean_str("parameter without callers: " + name + "." + e)}']
+            out = []
+            for cs, cf, args in callers:
+                if len(args) <= key[1]:
+                    out.append(f'.other {lean_str("call with too few arguments: " + name)}')
+                else:
+                    out += leaves(prog, cs, cf, args[key[1]], seen, depth + 1)
+            return out
+        if assigns:
+            out = []
+            for a in assigns:
+                out += leaves(prog, s, f, a, seen, depth + 1)
+            return out
+        return [f'.other {lean_str("no definition found: " + name + "." + e)}']
+    if re.fullmatch(r'[A-Za-z_]\w*(?:(?:->|\.)[A-Za-z_]\w*|\[\w+\])+', e):
+        fld = re.sub(r'^[A-Za-z_]\w*', '_', e)
+        return [f'.field {lean_str(fld)}']
+    return [f'.other {lean_str(e)}']
+
+
+def dedup(xs):
+    out = []
+    for x in xs:
+        if x not in out:
+            out.append(x)
+    return out
+
+
+def key_expr(prog, s, f, api, args):
+    if api.endswith('2'):
+        k, l = args[1], args[2]
+        m = re.fullmatch(r'(.+)->loc', k)
+        if m and l == m.group(1) + '->len':
+            return f'.span {lean_str(m.group(1))}'
+        m = re.fullmatch(r'(.+)->key', k)
+        if m and l == m.group(1) + '->keylen':
+            return '.entry'
+        if l == f'strlen({k})':
+            return '.strlenOf'
+        return f'.other2 {lean_str(k)} {lean_str(l)}'
+    return '.cstr [' + ', '.join(dedup(leaves(prog, s, f, args[1], frozenset()))) + ']'
+
+
+# ------------------------------------------------------------------------------------------ clang cross-checks
+
+def clang_dump(repo, cfile, fn=None):
+    cmd = ['clang-14', '-std=c11', '-fsyntax-only', '-w', '-Xclang', '-ast-dump']
+    if fn:
+        cmd += ['-Xclang', f'-ast-dump-filter={fn}']
+    cmd += ['-I', repo, os.path.join(repo, cfile)]
+    p = subprocess.run(cmd, capture_output=True, text=True)
+    if p.returncode != 0:
+        raise ExtractError(f'clang-14 failed on {cfile}: {p.stderr[:300]}')
+    return p.stdout
+
+
+def shape(lines):
+    """node kinds, types and cast kinds of a text AST subtree, without addresses and locations"""
+    out = []
+    for l in lines:
+        m = re.match(r'^([ |`-]*)(\w+) 0x[0-9a-f]+ <[^>]*>(.*)$', l)
+        if not m:
+            raise ExtractError('unexpected AST line: ' + l)
+        rest = re.sub(r'0x[0-9a-f]+', '', m.group(3))
+        rest = re.sub(r"'uint64_t':'unsigned long'", "'unsigned long'", rest)
+        out.append((len(m.group(1)) // 2, m.group(2), ' '.join(rest.split())))
+    base = out[0][0]
+    return [(d - base, k, r) for d, k, r in out]
+
+
+def subtree(dump_lines, idx):
+    d0 = len(re.match(r'^([ |`-]*)', dump_lines[idx]).group(1))
+    out = [dump_lines[idx]]
+    for l in dump_lines[idx + 1:]:
+        if len(re.match(r'^([ |`-]*)', l).group(1)) <= d0:
+            break
+        out.append(l)
+    return out
+
+
+PROBE_SHAPE = [
+    (0, 'BinaryOperator', "'unsigned long' '%'"),
+    (1, 'ParenExpr', "'unsigned long'"),
+    (2, 'BinaryOperator', "'unsigned long' '+'"),
+    (3, 'ImplicitCastExpr', "'unsigned long' <LValueToRValue>"),
+    (4, 'DeclRefExpr', "'unsigned long' lvalue Var 'hash' 'unsigned long'"),
+    (3, 'ImplicitCastExpr', "'unsigned long' <IntegralCast>"),
+    (4, 'ImplicitCastExpr', "'int' <LValueToRValue>"),
+    (5, 'DeclRefExpr', "'int' lvalue Var 'i' 'int'"),
+    (1, 'ImplicitCastExpr', "'unsigned long' <IntegralCast>"),
+    (2, 'ImplicitCastExpr', "'int' <LValueToRValue>"),
+    (3, 'MemberExpr', "'int' lvalue ->capacity"),
+    (4, 'ImplicitCastExpr', "'HashMap *' <LValueToRValue>"),
+    (5, 'DeclRefExpr', "'HashMap *' lvalue ParmVar 'map' 'HashMap *'"),
+]
+
+FNV_XOR_SHAPE = [
+    (0, 'CompoundAssignOperator', "'unsigned long' '^=' ComputeLHSTy='unsigned long' ComputeResultTy='unsigned long'"),
+    (1, 'DeclRefExpr', "'unsigned long' lvalue Var 'hash' 'unsigned long'"),
+    (1, 'ImplicitCastExpr', "'unsigned long' <IntegralCast>"),
+    (2, 'CStyleCastExpr', "'unsigned char' <IntegralCast>"),
+    (3, 'ImplicitCastExpr', "'char' <LValueToRValue> part_of_explicit_cast"),
+    (4, 'ArraySubscriptExpr', "'char' lvalue"),
+    (5, 'ImplicitCastExpr', "'char *' <LValueToRValue>"),
+    (6, 'DeclRefExpr', "'char *' lvalue ParmVar 's' 'char *'"),
+    (5, 'ImplicitCastExpr', "'int' <LValueToRValue>"),
+    (6, 'DeclRefExpr', "'int' lvalue Var 'i' 'int'"),
+]
+
+
+def check_typed_shapes(repo):
+    for fn in ('get_entry', 'get_or_insert_entry'):
+        lines = clang_dump(repo, 'hashmap.c', fn).splitlines()
+        idx = [i for i, l in enumerate(lines) if re.search(r"BinaryOperator .*'%'$", l)]
+        if len(idx) != 1:
+            raise ExtractError(f'{fn}: expected exactly one % expression, found {len(idx)}')
+        got = shape(subtree(lines, idx[0]))
+        if got != PROBE_SHAPE:
+            raise ExtractError(f'{fn}: the probe index expression no longer has the typing (uint64_t + int) % int: {got}')
+    lines = clang_dump(repo, 'hashmap.c', 'fnv_hash').splitlines()
+    idx = [i for i, l in enumerate(lines) if "CompoundAssignOperator" in l and "'^='" in l]
+    if len(idx) != 1:
+        raise ExtractError('fnv_hash: expected exactly one ^= statement')
+    got = shape(subtree(lines, idx[0]))
+    if got != FNV_XOR_SHAPE:
+        raise ExtractError(f'fnv_hash: the xor operand no longer has the typing (unsigned long)(unsigned char)s[i]: {got}')
+    idx = [i for i, l in enumerate(lines) if "CompoundAssignOperator" in l and "'*='" in l]
+    if len(idx) != 1 or "ComputeLHSTy='unsigned long' ComputeResultTy='unsigned long'" not in lines[idx[0]]:
+        raise ExtractError('fnv_hash: the multiplication is not computed in unsigned long')
+
+
+def pin(prog, s, name, expected, what):
+    cands = [f for f in prog.fns[s] if f[0] == name]
+    if len(cands) != 1:
+        raise ExtractError(f'{s}: expected one definition of {name}')
+    body = prog.src[s][cands[0][2] + 1:cands[0][3]]
+    norm = re.sub(r'\s+', ' ', body).strip()
+    if norm != expected:
+        raise ExtractError(f'{what}: {s}:{name} has a body the translator does not understand: {norm}')
+
+
+# ------------------------------------------------------------------------------------------ generate
+
+def generate_sites(repo):
+    prog = Prog(repo)
+    extra = sorted(f for f in os.listdir(repo) if f.endswith('.c') and f not in SOURCES and f != 'verif_dump.c')
+    if extra:
+        raise ExtractError(f'source files outside the audited nine: {extra}')
+    check_typed_shapes(repo)
+    pin(prog, 'hashmap.c', 'match',
+        'return ent->key && ent->key != TOMBSTONE && ent->keylen == keylen && memcmp(ent->key, key, keylen) == 0;',
+        'key comparison')
+    pin(prog, 'hashmap.c', 'hashmap_get', 'return hashmap_get2(map, key, strlen(key));', 'wrapper')
+    pin(prog, 'hashmap.c', 'hashmap_put', 'hashmap_put2(map, key, strlen(key), val);', 'wrapper')
+    pin(prog, 'hashmap.c', 'hashmap_delete', 'hashmap_delete2(map, key, strlen(key));', 'wrapper')
+    pin(prog, 'hashmap.c', 'hashmap_get2', 'HashEntry *ent = get_entry(map, key, keylen); return ent ? ent->val : NULL;', 'lookup')
+    pin(prog, 'hashmap.c', 'hashmap_put2', 'HashEntry *ent = get_or_insert_entry(map, key, keylen); ent->val = val;', 'store')
+    pin(prog, 'hashmap.c', 'hashmap_delete2', 'HashEntry *ent = get_entry(map, key, keylen); if (ent) ent->key = TOMBSTONE;', 'delete')
+    pin(prog, 'parse.c', 'get_ident',
+        'if (tok->kind != TK_IDENT) error_tok(tok, "expected an identifier"); return strndup(tok->loc, tok->len);',
+        'identifier copy')
+    sites = []
+    for s in SOURCES:
+        src = prog.src[s]
+        per_api = {a: 0 for a in APIS}
+        for m in CALL_RE.finditer(src):
+            f = prog.enclosing(s, m.start())
+            if f is None:
+                continue    # the definition itself
+            api = m.group(1)
+            per_api[api] += 1
+            close = match_paren(src, m.end() - 1)
+            args = split_args(src[m.end():close])
+            want = {'get': 2, 'get2': 3, 'put': 3, 'put2': 4, 'delete': 2, 'delete2': 3}[api]
+            if len(args) != want:
+                raise ExtractError(f'{s}:{f[0]}: hashmap_{api} with {len(args)} arguments')
+            val = args[-1] if api.startswith('put') else ''
+            sites.append((s, f[0], api, args[0], key_expr(prog, s, f, api, args), val))
+        # no use of the API the regular expression does not see (macro expansion, address taken): clang's count must agree
+        dump = clang_dump(repo, s)
+        for a in APIS:
+            n = len(re.findall(r"DeclRefExpr .* Function 0x[0-9a-f]+ 'hashmap_" + a + r"' ", dump))
+            if n != per_api[a]:
+                raise ExtractError(f'{s}: {n} references to hashmap_{a} in the typed AST, {per_api[a]} call sites in the text')
+    # memory a stored key may point into: who releases memory, who rewrites a source buffer
+    release = []
+    writers = []
+    for s in SOURCES:
+        src = prog.src[s]
+        for m in re.finditer(r'(?<![\w.>])(free|realloc)\s*\(', src):
+            f = prog.enclosing(s, m.start())
+            if f is None:
+                continue
+            close = match_paren(src, m.end() - 1)
+            release.append((s, f[0], m.group(1), split_args(src[m.end():close])[0]))
+        for w in ('canonicalize_newline', 'remove_backslash_newline', 'convert_universal_chars'):
+            for m in re.finditer(r'(?<![\w.>])' + w + r'\s*\(', src):
+                f = prog.enclosing(s, m.start())
+                if f is None:
+                    continue
+                body = prog.body(s, f)
+                before = 'yes' if re.search(re.escape(w) + r'\s*\(.*?(?<![\w.>_])tokenize\s*\(', body, re.S) else 'no'
+                writers.append((s, f[0], w, before))
+    out = HEADER.format(tool='hashmap.py', src='the nine *.c files')
+    out += 'namespace ChibiVerif.Gen.HashSites\n\n'
+    out += '''/-- where a NUL-terminated key string comes from -/
+inductive Leaf where
+  | dupTokSpan                 -- strndup(T->loc, T->len), also through get_ident(T)
+  | dupTokInner                -- strndup(T->loc + 1, T->len - 2): the text between the quotes of an #include operand
+  | dupPrefix                  -- strndup(str, eq - str): the part of a -D operand before '='
+  | lit (s : String)           -- a string literal of the compiler's own source
+  | fmt (f : String)           -- format("...", ...)
+  | call (fn : String)         -- what the named function returns
+  | field (path : String)      -- a struct member holding a string
+  | argv (e : String)          -- a command-line word
+  | other (e : String)         -- anything the translator does not classify
+  deriving Repr, DecidableEq
+
+/-- the (pointer, length) pair a call passes -/
+inductive KeyExpr where
+  | span (tok : String)        -- (T->loc, T->len): the bytes of a token inside its source buffer
+  | cstr (from_ : List Leaf)   -- a NUL-terminated string, length by strlen (the wrappers hashmap_get/put/delete)
+  | strlenOf                   -- (key, strlen(key)) inside the wrappers themselves
+  | entry                      -- (ent->key, ent->keylen): a stored key re-inserted by rehash
+  | other2 (k l : String)
+  deriving Repr, DecidableEq
+
+inductive Api where
+  | get | get2 | put | put2 | delete | delete2
+  deriving Repr, DecidableEq
+
+structure Site where
+  file : String
+  fn : String
+  api : Api
+  table : String
+  key : KeyExpr
+  val : String
+  deriving Repr, DecidableEq
+
+'''
+    out += '/-- every call of hashmap_get/get2/put/put2/delete/delete2 in the nine sources (text order) -/\n'
+    out += 'def sites : List Site := [\n'
+    out += ',\n'.join(f'  ⟨{lean_str(s)}, {lean_str(fn)}, .{api}, {lean_str(tab)}, {key}, {lean_str(val)}⟩'
+                      for s, fn, api, tab, key, val in sites)
+    out += ']\n\n'
+    out += '/-- calls of free/realloc: (file, function, callee, first argument) -/\n'
+    out += 'def releaseSites : List (String × String × String × String) := [' + ', '.join(
+        f'({lean_str(a)}, {lean_str(b)}, {lean_str(c)}, {lean_str(d)})' for a, b, c, d in release) + ']\n\n'
+    out += '/-- calls of the functions that rewrite a source buffer in place: (file, function, callee, "yes" if a call of\n'
+    out += '    tokenize follows it in the same function) -/\n'
+    out += 'def bufferWriters : List (String × String × String × String) := [' + ', '.join(
+        f'({lean_str(a)}, {lean_str(b)}, {lean_str(c)}, {lean_str(d)})' for a, b, c, d in writers) + ']\n\n'
+    return out
+
 
 def generate(repo):
     src = strip_comments(read(repo, 'hashmap.c'))
@@ -32,4 +570,19 @@ def generate(repo):
     out += '/-- `fnv_hash`: hash = OFFSET; for each byte: hash *= PRIME; hash ^= byte (uint64_t arithmetic) -/\n'
     out += 'def fnvHash (s : List UInt8) : UInt64 :=\n  s.foldl (fun h c => (h * FNV_PRIME) ^^^ c.toUInt64) FNV_OFFSET\n\n'
     out += 'end ChibiVerif.Gen.HashMap\n'
-    return {'HashMapGen.lean': out}
+    sites = generate_sites(repo)
+    sites += f'''/-- `(hash + i) % map->capacity` with the types clang assigns: `hash : uint64_t`, `i` and `capacity : int`, both
+    converted to `unsigned long` (sign extension), sum and remainder computed modulo 2^64 -/
+def probeIndexC (hash : UInt64) (i cap : Int32) : UInt64 :=
+  (hash + i.toInt64.toUInt64) % cap.toInt64.toUInt64
+
+/-- one round of `fnv_hash` with the types clang assigns: `s[i] : char` (signed on x86-64) is converted to
+    `unsigned char` by the explicit cast and then to `unsigned long` (zero extension) -/
+def fnvStepC (hash : UInt64) (c : Int8) : UInt64 :=
+  (hash * 0x{prime:x}) ^^^ c.toUInt8.toUInt64
+
+def fnvHashC (s : List Int8) : UInt64 := s.foldl fnvStepC 0x{offset:x}
+
+end ChibiVerif.Gen.HashSites
+'''
+    return {'HashMapGen.lean': out, 'HashSitesGen.lean': sites}
